@@ -301,6 +301,23 @@ Theorem C11_status_no_table :
   report false dirty all revs = report true false all [].
 Proof. exact (report_no_table hash). Qed.
 
+(** ... spelled out: with a checkpoint in the directory the report on a never-migrated
+    database lists the LAST checkpoint and the files after it -- exactly what apply runs
+    ([C11_first_run_checkpoint]) -- and nothing before it; without a checkpoint, every file. *)
+Theorem C11_status_fresh_checkpoint :
+  forall (dirty : bool) (revs : list rev),
+  (forall (pre : list file) (ck : file) (rest : list file),
+     f_ckpt ck = true -> (forall f, In f rest -> f_ckpt f = false) ->
+     report false dirty (pre ++ ck :: rest) revs =
+     SOk (mkStatus (ck :: rest) [] (ck :: rest) [] CurNone (NextVer (f_version ck)) 0 0 false false)) /\
+  (forall (all : list file),
+     (forall f, In f all -> f_ckpt f = false) -> all <> [] ->
+     report false dirty all revs =
+     SOk (mkStatus all [] all [] CurNone (NextVer (f_version (hd (mkFile [] [] false) all))) 0 0 false false)).
+Proof.
+  exact (fun dirty revs => conj (report_fresh_checkpoint hash dirty revs) (report_fresh_no_checkpoint hash dirty revs)).
+Qed.
+
 (** (H1) Every field of the report is the stated function of Pending's decision under the
     default (linear) order: Pending / OutOfOrder are the decision's lists, Status is OK iff
     nothing is pending, Next is the first pending version, Applied is the table, Available
@@ -429,6 +446,7 @@ Print Assumptions C11_execute_n_first_n.
 Print Assumptions C11_execute_n_error.
 Print Assumptions C11_reader_sorted.
 Print Assumptions C11_status_no_table.
+Print Assumptions C11_status_fresh_checkpoint.
 Print Assumptions C11_status_fields.
 Print Assumptions C11_status_no_panic.
 Print Assumptions C11_status_error.
@@ -556,6 +574,12 @@ Example C11_status_no_table_nonvacuous :
   s_pending s = [k3; f4] /\ s_available s = [k3; f4] /\ s_next s = NextVer [51%N] /\
   s_current s = CurNone /\ s_ok s = false /\
   report (hash := unit) true true ex_ck [] = SErr PNotClean.
+Proof. vm_compute. repeat split; reflexivity. Qed.
+
+Example C11_status_fresh_checkpoint_nonvacuous :
+  ex_ck = [f1; k2] ++ k3 :: [f4] /\ f_ckpt k3 = true /\
+  report (hash := unit) false false ex_ck [] =
+  SOk (mkStatus [k3; f4] [] [k3; f4] [] CurNone (NextVer [51%N]) 0 0 false false).
 Proof. vm_compute. repeat split; reflexivity. Qed.
 
 (** files 1..4, revisions 1 and 3 (3 partially applied 1/2, error): file 2 is out of order *)
